@@ -118,3 +118,16 @@ fn fixed_f4_title_case_casing() {
     assert!(glob.is_match("ǆ"));
     assert!(matches!(glob.text(), TextVariance::Variant(_)), "F4: a pattern that matches two paths reports variant text");
 }
+
+#[test]
+fn fixed_f5_nested_rooted_branch() {
+    // an alternation branch / optional repetition that begins with a rooted NESTED branch
+    for expression in ["{</a:1,>,b}", "<</a:1,>:0,1>", "{a,</**/b:1,>}"] {
+        assert!(Glob::new(expression).is_err(), "F5: {expression} would be sometimes rooted and must not build");
+    }
+    // a nested branch that cannot root, or one that is not first in the expression, is fine
+    for expression in ["{<a:1,>,b}", "x{</a:1,>,b}", "<</a:1,>:1,2>"] {
+        let glob = Glob::new(expression).unwrap();
+        assert!(!glob.has_root().is_sometimes(), "F5: a glob is always or never rooted");
+    }
+}
